@@ -671,21 +671,10 @@ Qed.
 End Final.
 
 (* ------------------------------------------------------------------ non-vacuity *)
-(* 70 files (more than the 65 slots), 3 scanning threads, a fair schedule: a terminal state is
-   reached, and the three threads together got the 70 files *)
+(* 70 files (more than the 65 slots), 3 scanning threads.  The producer alone fills the queue and then
+   blocks: a reachable, non-terminal state in which a thread has no step, used_slots = 64,
+   unused_slots = 0; the consumers are enabled *)
 Definition ex_files : list nat := seq 100 70.
-Definition ex_final : qstate := qsweep queue_cfg ex_files 400 (qinit queue_cfg ex_files 3).
-
-Example ex_terminal_reachable :
-  (1 <= 3 <= queue_max_threads) /\ reachable queue_cfg ex_files 3 ex_final /\ qterminal ex_final = true /\
-  length (qdelivered ex_final) = 70 /\ forallb (fun c => 0 <? length (qc_got c)) (q_cons ex_final) = true.
-Proof.
-  split; [vm_compute; lia|]. split; [apply sweep_reachable; constructor|].
-  vm_compute. Show. repeat split.
-Qed.
-
-(* the producer alone fills the queue and then blocks: a reachable, non-terminal state in which a
-   thread has no step, used_slots = 64, unused_slots = 0; the consumers are enabled *)
 Definition ex_full : qstate := qrun queue_cfg ex_files (repeat 0 500) (qinit queue_cfg ex_files 3).
 
 Example ex_full_queue :
@@ -694,6 +683,19 @@ Example ex_full_queue :
   q_used (q_sh ex_full) = 64 /\ q_unused (q_sh ex_full) = 0 /\ q_tail (q_sh ex_full) = 64 /\
   qenabled_threads queue_cfg ex_files ex_full = [1; 2; 3].
 Proof. split; [apply run_reachable; constructor|]. vm_compute. repeat split. Qed.
+
+(* continued under a fair schedule a terminal state is reached; every thread got some of the files,
+   together the 70 *)
+Definition ex_final : qstate := qsweep queue_cfg ex_files 1000 ex_full.
+
+Example ex_terminal_reachable :
+  (1 <= 3 <= queue_max_threads) /\ reachable queue_cfg ex_files 3 ex_final /\ qterminal ex_final = true /\
+  length (qdelivered ex_final) = 70 /\ forallb (fun c => 0 <? length (qc_got c)) (q_cons ex_final) = true /\
+  qdelivered ex_final <> ex_files.
+Proof.
+  split; [vm_compute; lia|]. split; [apply sweep_reachable; apply run_reachable; constructor|].
+  vm_compute. repeat split. discriminate.
+Qed.
 
 (* a consumer inside the critical section: the hypothesis of accesses_under_mutex is satisfiable *)
 Definition ex_incs : qstate := qrun queue_cfg ex_files (repeat 0 6 ++ repeat 2 3) (qinit queue_cfg ex_files 3).
